@@ -92,6 +92,7 @@ struct Inst {
         for (int i = 0; i < 3; i++) {
             model[i].clear();
             off[i] = (mixed && i == 1) ? offsetof(Elem, node2) : offsetof(Elem, node);
+            memset(&sl[i], 0xA5, sizeof sl[i]);      // init must set every field itself
             cstl_slist_init(&sl[i], off[i]);
         }
     }
